@@ -65,11 +65,60 @@ def observe(path, spec):
     return {"rg_rows": rg_rows, "chunks": chunks}
 
 
+def _big_page_job(job):
+    """thorough tier: ONE data page of 2^27 rows (BOOLEAN column written OPTIONAL without nulls, one row group): the run header of its
+    definition levels needs the fifth varint byte - the real write -> read at the size the scratch-buffer theorems are about.
+    Compared with numpy (no per-cell Python objects); about 1 GB transient."""
+    import numpy as np
+    import pandas as pd
+    import fastparquet
+    from fastparquet import writer
+    n = job["rows"]
+    tmp = tempfile.mkdtemp(prefix="verif-C01big-", dir="/tmp")
+    old = writer.DATAPAGE_VERSION
+    try:
+        a = np.zeros(n, dtype=bool)
+        a[::3] = True
+        a[-1] = True
+        df = pd.DataFrame({"b": a})
+        fn = os.path.join(tmp, "big.parquet")
+        writer.DATAPAGE_VERSION = job["dpv"]
+        try:
+            fastparquet.write(fn, df, row_group_offsets=[0], has_nulls=True, stats=False)
+        except Exception as e:      # noqa: allowed outcome
+            return {"outcome": "write-raised", "err": "%s: %s" % (type(e).__name__, str(e)[:200])}
+        finally:
+            writer.DATAPAGE_VERSION = old
+        del df
+        pf = fastparquet.ParquetFile(fn)
+        pages = sum(1 for rg in pf.row_groups for c in rg.columns)
+        try:
+            got = pf.to_pandas()
+        except Exception as e:      # noqa
+            return {"outcome": "read-raised", "err": "%s: %s" % (type(e).__name__, str(e)[:200])}
+        probs = []
+        if len(got) != n:
+            probs.append("%d rows written, %d read" % (n, len(got)))
+        elif str(got["b"].dtype) != "bool":
+            probs.append("column b: dtype bool came back as %s" % got["b"].dtype)
+        else:
+            bad = np.flatnonzero(np.asarray(got["b"].values) != a)
+            if len(bad):
+                probs.append("column b: %d of %d cells differ, first at row %d" % (len(bad), n, int(bad[0])))
+        return {"outcome": "ok" if not probs else "differs", "problems": probs, "row_groups": len(pf.row_groups), "chunks": pages}
+    finally:
+        shutil.rmtree(tmp, ignore_errors=True)
+
+
 def gen_jobs(ctx):
     from harness import rt
     rng = ctx.rng
     jobs = []
     quick = ctx.quick()
+    import glob
+    for fn in sorted(glob.glob(os.path.join(C.VERIF, "corpus", "C01", "*.json"))):      # minimised past failures first
+        c = json.load(open(fn))
+        jobs.append((c["spec"], c["opts"]))
     # boundary lattice: every kind x the framing sizes (thinned in the quick tier)
     sizes_small = [0, 1, 2, 7, 8, 9, 63, 64, 65, 127, 128, 129]
     sizes_big = [255, 256, 257, 8191, 8192, 8193]
@@ -83,10 +132,52 @@ def gen_jobs(ctx):
             for n in sizes_small + sizes_big:
                 for _ in range(3):
                     jobs.append(_one(rng, k, n))
+    jobs += zone_block(ctx)
     # random multi-column frames
     for _ in range(400 if quick else 2500):
         spec = F.gen_spec(rng, n=rng.choice(sizes_small + ([257, 8193] if rng.random() < 0.1 else [])))
         jobs.append((spec, rt.gen_opts(rng, spec)))
+    return jobs
+
+
+# time zones of tz-aware columns and indexes: fixed offsets (datetime.timezone) around every place where the text form
+# "+HH:MM[:SS]" changes shape - the sign with a zero hour field, whole hours, half / quarter hours, the extremes of the
+# type, offsets that are not whole minutes - and named zones incl. ones with half-hour / 45-minute / historical offsets
+FIXED_ZONES = [-2700, -1800, -60, 60, 2700, -3600, 3600, -12600, 19800, 20700, 50400, -43200, -86340, 86340,
+               30, -30, 3630, -3599, -86399, 86399]
+NAMED_ZONES = ["UTC", "Europe/Berlin", "Asia/Kolkata", "Asia/Kathmandu", "America/St_Johns", "Australia/Lord_Howe",
+               "Pacific/Chatham", "Etc/GMT+12", "Etc/GMT-14", "America/New_York", "Australia/Sydney", "Europe/Istanbul",
+               "America/Indiana/Indianapolis", "Africa/Sao_Tome"]
+
+
+def zone_block(ctx):
+    """deterministic lattice (identical on every run) + options from the PRNG: every zone as a column and as the index"""
+    from harness import rt
+    import zoneinfo
+    rng = ctx.rng
+    zones = [{"fixed_s": s} for s in FIXED_ZONES] + [{"fixed_us": 1500000}, {"fixed_us": -2700000001}]
+    for z in NAMED_ZONES:
+        try:
+            zoneinfo.ZoneInfo(z)
+            zones.append(z)
+        except Exception:     # noqa: no tzdata for that name in this environment
+            pass
+    base = {"compression": None, "row_group_offsets": None, "has_nulls": True, "page_size": None, "dpv": 1, "stats": True,
+            "times": "int64", "object_encoding": "infer", "file_scheme": "simple", "write_index": None}
+    jobs = []
+    for i, z in enumerate(zones):
+        unit = ["ns", "us", "ms", "s"][i % 4]
+        col = {"name": "c0_dttz_%s" % unit, "kind": "dttz_%s" % unit, "nulls": "some", "seed": 777 + i, "tz": z}
+        jobs.append(({"n": 9, "cols": [col], "index": None}, dict(base)))
+        # (the zone NAME takes part in dtype-name tests of the writer: both `times` modes, every zone)
+        jobs.append(({"n": 9, "cols": [dict(col, seed=555 + i)], "index": None}, dict(base, times="int96", dpv=1 + i % 2)))
+        ix = {"name": "idx", "kind": "dttz_ns", "nulls": "none", "seed": 999 + i, "tz": z}
+        plain = {"name": "c0_int64", "kind": "int64", "nulls": "none", "seed": 5}
+        jobs.append(({"n": 9, "cols": [plain], "index": ix}, dict(base)))
+        if not ctx.quick() or i % 3 == rng.randrange(3):
+            spec = {"n": rng.choice([1, 8, 65]), "cols": [dict(col, seed=rng.randrange(1 << 30), nulls=rng.choice(F.NULL_PATTERNS))],
+                    "index": dict(ix) if rng.random() < 0.5 else None}
+            jobs.append((spec, rt.gen_opts(rng, spec)))
     return jobs
 
 
@@ -106,6 +197,10 @@ def run(ctx):
     wlevels.translate_skip(ctx)
     ctx.coq_file(os.path.join(C.COQ, "props", "C01.v"))
     ctx.coq_file(os.path.join(C.COQ, "props", "C01_pages.v"))
+    # wave 3: scratch buffers of the run headers (capacity table regenerated from writer.py) and the time-zone text
+    caps = wlevels.translate_scratch(ctx)
+    ctx.coq_file(os.path.join(C.COQ, "props", "C01_headers.v"))
+    ctx.coq_file(os.path.join(C.COQ, "props", "C01_convert.v"))
     if os.path.exists(os.path.join(C.COQ, "props", "C01_chunk.v")):
         # chunk level: reader model (incl. the selfmade shortcuts) applied to the writer model's chunk = the column
         ctx.coq_file(os.path.join(C.COQ, "props", "C01_chunk.v"))
@@ -168,15 +263,70 @@ def run(ctx):
             ctx.correspondence("offsets_int/slices ~ row groups written by iter_dataframe", case, [x for x in mo if x], impl)
         else:
             ctx.correspondence("pages(rpp) ~ data-page value counts of write_column (rpp = first page)", case, mo, impl)
+    if not ctx.quick():
+        # one data page of 2^27 (+9) rows, for real: the size at which the run header needs its fifth byte (seeded C01-6 class)
+        bjobs = [{"rows": 2 ** 27, "dpv": 1}, {"rows": 2 ** 27 + 9, "dpv": 2}]
+        for bj, r in zip(bjobs, C.pmap(_big_page_job, bjobs, init=_init, nproc=1, job_timeout=900)):
+            if isinstance(r, dict) and "__crashed__" in r:
+                r = {"outcome": "crashed", "problems": ["write -> read did not complete: " + r["__crashed__"]]}
+            ctx.case({"big_page": bj}, trivial=(r["outcome"] == "write-raised"))
+            ctx.count("big_page", r["outcome"])
+            if r["outcome"] not in ("ok", "write-raised"):
+                ctx.fail({"component": "big page", "outcome": r["outcome"], "dpv": bj["dpv"]}, {"big_page": bj},
+                         "; ".join(r.get("problems") or [r.get("err", "")])[:800])
     # page-level tie: make_definitions / encode_dict / skip_definition_bytes vs Impl/WLevels.v + spec decoder oracle
     C.use_shadow()
     wlevels.run(ctx, pq)
+    wlevels.run_scratch(ctx, pq, caps)
+    wlevels.run_tz(ctx, pq)
+    from harness import wconvert
+    wconvert.run(ctx, pq)
     pq.close()
+
+
+def replay_function_case(case):
+    """re-execute a function-level case (time-zone text, run header at a given row count) on the real code"""
+    C.use_shadow()
+    from harness import wlevels
+    if "w_convert" in case:
+        from harness import wconvert
+        return wconvert.replay(case)
+    if "big_page" in case:
+        r = _big_page_job(case["big_page"])
+        print(r)
+        return 0 if r["outcome"] in ("ok", "write-raised") else 1
+    pq = C.Pqref()
+    try:
+        if "tz_seconds" in case:
+            s = case["tz_seconds"]
+            name, text, back = wlevels.tz_observe(s)
+            print("zone %s: recorded as %r, read back as %r" % (name, text, back))
+            return 0 if (back == [b"fixed", s] or (s == 0 and back == [b"name", b"UTC"])) else 1
+        if case.get("make_definitions") == "nonull" and "dpv" in case:
+            n, dpv = case["n"], case["dpv"]
+            impl = wlevels.nonull_block(n, dpv)
+            want = bytes(pq.call("wr_defs_nonull", dpv, n))
+            print("make_definitions(%d rows, no nulls, v%d): %s; block that decodes to %d ones: %s" % (n, dpv, impl.hex(), n, want.hex()))
+            return 0 if impl == want else 1
+        if "encode_dict" in case and case.get("codes") == "fake length":
+            from fastparquet import writer
+            k = int(case["encode_dict"][3:]) // 8
+            impl = bytes(writer.encode_dict(wlevels.FakeCodes(case["n"], k), None))
+            want = bytes(pq.call("wr_dict_head_cap", 64, k, case["n"]))
+            print("encode_dict head for %d codes: %s, must be %s" % (case["n"], impl.hex(), want.hex()))
+            return 0 if impl == want else 1
+        print(json.dumps(case)[:3000])
+        return 1
+    finally:
+        pq.close()
 
 
 def replay(rep):
     warnings.filterwarnings("ignore")
-    if rep.get("kind") == "no-failing-input-found" or "spec" not in rep.get("case", {}):
+    case = rep.get("case", {})
+    if rep.get("kind") != "no-failing-input-found" and ("tz_seconds" in case or "make_definitions" in case or "encode_dict" in case or "w_convert" in case or "big_page" in case):
+        return replay_function_case(case)
+    if rep.get("kind") == "no-failing-input-found" or "spec" not in case:
         print(json.dumps(rep, indent=1)[:6000])
         return 1
     C.use_shadow()
